@@ -12,6 +12,12 @@ def run(tier, seed):
         exe = vlib.build_engine("order", [os.path.join(vlib.VERIF, "engines", "order.c")], flavour=fl, link_core=False)
         for k in range(2 if tier == "quick" else 6):
             cases.append(([exe, str(pool), str(seed * 1000 + k)], "%s/%d" % (fl, k)))
+    # second part: the order the real per-thread queue (its own comparator built on the relation) hands tie groups out in
+    qsrc = [os.path.join(vlib.VERIF, "engines", "qorder.c"), os.path.join(vlib.VERIF, "hooks", "vhook_stub.c")]
+    for fl in ("asan", "asan-ndebug"):
+        qexe = vlib.build_engine("qorder", qsrc, flavour=fl)
+        for k in range(4 if tier == "quick" else 16):
+            cases.append(([qexe, "400" if tier == "quick" else "3000", str(seed * 1000 + 500 + k)], "q-%s/%d" % (fl, k)))
     for res in vlib.run_cases(cases, parallel=8, timeout=600):
         rec, anomaly = vlib.absorb(chk, res)
         if anomaly:
@@ -26,6 +32,10 @@ def run(tier, seed):
                 "sizes {0,1,8,32,33,40,64}, payload alphabets {00,01,7f,80,ff} differing at first/last/beyond-32 byte; ALL ordered "
                 "triples of the pool are evaluated (exhaustive over the pool); non-trivial = triple of three different pool "
                 "events with at least two equal timestamps; distinct = index triple (pool is de-duplicated by content)")
+    chk.rule += ("; queue part: groups of 3-7 pairwise different events, mostly at one timestamp, pushed through the real msg_queue in every arrival "
+                 "order (groups up to 5) or 60 random ones, with random destination LPs and buffer addresses: the extraction sequence must respect the "
+                 "relation and be the same content sequence every time")
     chk.exhaustive = True
-    rc = chk.finish(min_evals=1000, require={"triples_with_equal_timestamps": 1000, "twin_comparisons": 1000, "incomparable_pairs": 1})
+    rc = chk.finish(min_evals=1000, require={"triples_with_equal_timestamps": 1000, "twin_comparisons": 1000, "incomparable_pairs": 1,
+                                              "queue_groups_with_three_or_more_ties": 100, "queue_arrival_orders": 10000})
     return rc
